@@ -213,6 +213,20 @@ struct Extractor : public RecursiveASTVisitor<Extractor> {
         if (VD->getTLSKind() != VarDecl::TLS_None)
           return json::Array{"gvar", VD->getQualifiedNameAsString(),
                              VD->isStaticLocal() ? "staticlocal" : "global", "tls"};
+        // a namespace-scope named constant (const / constexpr integral with a constant initialiser) is its value
+        if (!VD->isStaticLocal() && !VD->isStaticDataMember() && VD->getType().isConstQualified() &&
+            VD->getType()->isIntegralOrEnumerationType() && !VD->getType()->isBooleanType() && VD->hasInit() &&
+            !VD->getInit()->isValueDependent() && !VD->getInit()->isTypeDependent()) {
+          if (const APValue *AV = VD->evaluateValue())
+            if (AV->isInt()) {
+              llvm::APSInt V = AV->getInt();
+              if (V.isUnsigned()) {
+                if (V.isMaxValue()) return json::Array{"int", "max", (int64_t)V.getBitWidth()};
+                return json::Array{"int", V.getLimitedValue()};
+              }
+              return json::Array{"int", V.getExtValue()};
+            }
+        }
         return json::Array{"gvar", VD->getQualifiedNameAsString(),
                            VD->isStaticLocal() ? "staticlocal" : "global"};
       }
